@@ -151,6 +151,10 @@ def check_C04(c):
     if not q:
         jobs.append(("views-r4", dict(MinRank=4, MaxRank=4, MaxDim=2, MaxDimHi=2, HiRank=4, Ctors={S("C")}, ViewDepth=1,
                                       RichPalette=False, Writes=W, Copies=C)))
+    # shallow clones: a second tensor object over the same storage (own access-pattern record); every whole-tensor write
+    # through a shallow clone, a slice/transpose of one, or a shallow clone of a slice/transpose must land on the shared cells only
+    jobs.append(("views-shallow", dict(MinRank=1, MaxRank=2 if q else 3, MaxDim=3, MaxDimHi=2, HiRank=3, Ctors={S("C")} if q else {S("C"), S("F")},
+                                       ViewDepth=2, RichPalette=False, Writes=W, Copies={S("ShallowClone"), S("Clone"), S("Materialize")})))
     for name, k in jobs:
         cfgp = c.scr.path(name + ".cfg")
         write_cfg(cfgp, consts=k, invariants=inv, properties=["Frame"])
